@@ -528,7 +528,7 @@ func (f *cacheFacts) checkLoader(where string, fd *ast.FuncDecl) error {
 			if s.Tok == token.DEFINE && len(s.Rhs) == 1 {
 				if c, ok := s.Rhs[0].(*ast.CallExpr); ok && cacheCallName(c) == "make" && len(c.Args) == 2 {
 					sp2 = cacheExprStr(s.Lhs[0])
-					if n, ok := cacheIntOffset(c.Args[1], "len("+spName+")"); ok {
+					if n, ok := cacheIntOffset(cacheResolveLocal(insertBlk, st, c.Args[1]), "len("+spName+")"); ok {
 						lenInc = n
 					}
 				}
